@@ -69,6 +69,10 @@ def payloads():
     # two keys): a DAG, not a cycle - the JSON text repeats the value
     row, empty, dflt = {"id": 7, "tags": ["x"]}, [], {"retries": 3}
     out += [{"rows": [row, row, row]}, {"a": empty, "b": empty}, {"opts": dflt, "nested": {"opts": dflt, "l": [dflt]}}]
+    # integers outside 64 bits that are not exactly a double, each as the FIRST element of an array and nowhere else (in a
+    # compact text such a number follows "[" - not ":" or "," or a space)
+    out += [{"values": [18446744073709551617, 7], "more": [[-9223372036854788153]]}, {"v": [[[2 ** 70 + 1]]]},
+            {"v": [-(2 ** 63) - 12345, "x"]}]
     return out
 
 
@@ -80,7 +84,7 @@ SHAPES = {
     "typed-unified": ("typed", True),
     "dict": ("dict", True),
     "raw-compact": ("raw", True), "raw-spaced": ("raw", True), "raw-pretty": ("raw", True), "raw-pretty-crlf": ("raw", True),
-    "raw-trailing-newline": ("raw", True), "raw-leading-newline": ("raw", True),
+    "raw-trailing-newline": ("raw", True), "raw-leading-newline": ("raw", True), "raw-compact-trailing-newline": ("raw", True),
     "dumponly": ("other", True),
     "list": ("other", False), "none": ("other", False), "raw-not-json": ("other", False),
     "raw-not-json-break": ("other", False), "dict-lone-surrogate": ("other", False),
@@ -157,6 +161,8 @@ def build(desc):
             s = json.dumps(d, indent=1).replace("\n", "\r\n")
         elif shape == "raw-trailing-newline":
             s = json.dumps(d, ensure_ascii=False) + "\n"
+        elif shape == "raw-compact-trailing-newline":
+            s = json.dumps(d, ensure_ascii=False, separators=(",", ":")) + "\n"
         else:
             s = "\n" + json.dumps(d)
         return s, d, True
@@ -455,7 +461,8 @@ def judge_all(ctx, drv, rows):
         if len(writes) == len(ser):
             oks = [next(it) for _ in writes]
             bad = [d["shape"] for (d, _e), o in zip(ser, oks) if not o]
-            if bad and all(b in ("raw-pretty", "raw-pretty-crlf", "raw-trailing-newline", "raw-leading-newline") for b in bad):
+            if bad and all(b in ("raw-pretty", "raw-pretty-crlf", "raw-trailing-newline", "raw-leading-newline",
+                               "raw-compact-trailing-newline") for b in bad):
                 klass = "raw-string-with-line-break-forwarded-verbatim"
             elif bad:
                 klass = "line-break-inside-line:" + SHAPES[bad[0]][0]
